@@ -6207,7 +6207,10 @@ impl<'a, 'graph> Builder<'a, 'graph> {
                 }
                 .into_box(),
               )
-            } else if redirect_count >= loader.max_redirects() {
+            } else if redirect_count >= loader.max_redirects()
+              // a redirect to the requested specifier itself can never resolve
+              || specifier == load_specifier
+            {
               Err(
                 ModuleErrorKind::Load {
                   specifier: load_specifier.clone(),
